@@ -13,6 +13,7 @@ import (
 
 	"github.com/q191201771/lal/pkg/base"
 	"github.com/q191201771/lal/pkg/sdp"
+	"github.com/q191201771/naza/pkg/nazaatomic"
 	"github.com/q191201771/naza/pkg/nazaerrors"
 	"github.com/q191201771/naza/pkg/nazanet"
 )
@@ -40,8 +41,9 @@ type PullSession struct {
 	cmdSession    *ClientCommandSession
 	baseInSession *BaseInSession
 
-	disposeOnce sync.Once
-	waitChan    chan error
+	disposeOnce  sync.Once
+	disposedFlag nazaatomic.Bool
+	waitChan     chan error
 }
 
 type ModPullSessionOption func(option *PullSessionOption)
@@ -217,6 +219,10 @@ func (session *PullSession) OnConnectResult() {
 // OnDescribeResponse callback by ClientCommandSession
 func (session *PullSession) OnDescribeResponse(sdpCtx sdp.LogicContext) {
 	session.onDescribeResponse()
+	// 回调中上层可能已经拒绝（销毁）了这个session，比如回源建连期间流已经有了其他输入，此时sdp不再回调给上层
+	if session.disposedFlag.Load() {
+		return
+	}
 	session.baseInSession.InitWithSdp(sdpCtx)
 }
 
@@ -254,6 +260,7 @@ func (session *PullSession) WriteInterleavedPacket(packet []byte, channel int) e
 func (session *PullSession) dispose(err error) error {
 	var retErr error
 	session.disposeOnce.Do(func() {
+		session.disposedFlag.Store(true)
 		Log.Infof("[%s] lifecycle dispose rtsp PullSession. session=%p", session.UniqueKey(), session)
 		e1 := session.cmdSession.Dispose()
 		e2 := session.baseInSession.Dispose()
